@@ -364,6 +364,31 @@ def rule_opt_and_then(text, ctx, where):
     return _opt_method(text, "and_then", build, where)
 
 
+def rule_vec_retain(text, ctx, where):
+    """`V.retain(|PAT| BODY);` -> take the vector, then re-push, in order, exactly the elements for which BODY (evaluated once
+    per element, in order) is true (std semantics of Vec::retain assumed; BODY may mutate other state, as the original closure does)"""
+    n = 0
+    while True:
+        m = mask(text)
+        mt = re.search(r"\.\s*retain\s*\(", m)
+        if not mt:
+            break
+        b = mt.end() - 1
+        e = match_delim(m, b)
+        s0 = chain_start(m, mt.start())
+        recv = text[s0:mt.start()].strip()
+        pat, body = _split_closure(text[b + 1:e])
+        semi = m.find(";", e)
+        if semi < 0 or m[e + 1:semi].strip():
+            raise AnchorLost(f"{where}: retain(..) not used as a statement")
+        o, x, k = f"__ro{n}", f"__rx{n}", f"__rk{n}"
+        rep = (f"{{ let mut {o} = vec_take(&mut {recv}); while {o}.len() > 0 {{ let {x} = {o}.remove(0); "
+               f"let {k}: bool = {{ let {pat} = &{x}; {body} }}; if {k} {{ {recv}.push({x}); }} }} }}")
+        text = text[:s0] + rep + text[semi + 1:]
+        n += 1
+    return text, n
+
+
 def rule_iter_map_collect(text, ctx, where):
     """`X.iter().map(|t| E).collect()` -> a block that pushes E for every element, in order, into a fresh Vec
     (std semantics of map+collect into Vec assumed)"""
@@ -864,7 +889,7 @@ def rule_box_as_ref(text, ctx, where):
     return re.subn(r"\b([a-z_][a-z_0-9]*)\.as_ref\(\)(?!\s*\.map\()", r"box_as_ref(&\1)", text)
 
 
-RULES = {"box_as_ref": rule_box_as_ref, "str_methods": rule_str_methods, "opt_and_then": rule_opt_and_then, "let_chain_rev": rule_let_chain_rev, "iter_find_map": rule_iter_find_map, "iter_rfind_map": rule_iter_rfind_map, "iter_all": rule_iter_all, "let_chain": rule_let_chain, "entry_or_insert_with": rule_entry_or_insert_with, "for_into_iter": rule_for_into_iter, "iter_map_collect": rule_iter_map_collect, "ok_or_else_q": rule_ok_or_else_q, "for_zip": rule_for_zip, "msg_to_string": rule_msg_to_string, "for_consume": rule_for_consume, "for_entries": rule_for_entries, "opt_map": rule_opt_map, "opt_or_else": rule_opt_or_else, "closure_inline": rule_closure_inline, "unreachable_partial": rule_unreachable_partial, "assert_partial": rule_assert_partial, "for_index": rule_for_index, "map_err_q": rule_map_err_q, "iter_any": rule_iter_any, "opt_map_or": rule_opt_map_or, "mutself": rule_mutself, "fmtmsg": rule_fmtmsg, "pubfields": rule_pubfields, "T": rule_T, "attrs": rule_attrs, "cell": rule_cell}
+RULES = {"box_as_ref": rule_box_as_ref, "vec_retain": rule_vec_retain, "str_methods": rule_str_methods, "opt_and_then": rule_opt_and_then, "let_chain_rev": rule_let_chain_rev, "iter_find_map": rule_iter_find_map, "iter_rfind_map": rule_iter_rfind_map, "iter_all": rule_iter_all, "let_chain": rule_let_chain, "entry_or_insert_with": rule_entry_or_insert_with, "for_into_iter": rule_for_into_iter, "iter_map_collect": rule_iter_map_collect, "ok_or_else_q": rule_ok_or_else_q, "for_zip": rule_for_zip, "msg_to_string": rule_msg_to_string, "for_consume": rule_for_consume, "for_entries": rule_for_entries, "opt_map": rule_opt_map, "opt_or_else": rule_opt_or_else, "closure_inline": rule_closure_inline, "unreachable_partial": rule_unreachable_partial, "assert_partial": rule_assert_partial, "for_index": rule_for_index, "map_err_q": rule_map_err_q, "iter_any": rule_iter_any, "opt_map_or": rule_opt_map_or, "mutself": rule_mutself, "fmtmsg": rule_fmtmsg, "pubfields": rule_pubfields, "T": rule_T, "attrs": rule_attrs, "cell": rule_cell}
 
 
 def apply_rules(text, rules, ctx, counts, where):
